@@ -3,7 +3,7 @@ NEXT Next
 CONSTANTS
   Part = "scope"
   MaxDim = 4
-  NReal = 5
+  NReal = 6
   NCplx = 3
   Big = TRUE
 INVARIANT InvOutcomeDomain
